@@ -177,9 +177,23 @@ NAME_POOLS = [
 KEYWORDS = ('states', 'final', 'initial', 'input_symbols', 'epsilon', 'stack_symbols', 'tape_symbols', 'blank', 'accept', 'reject')
 
 
-def random_names(rng, n, avoid=()):
-    """n distinct \\w+ state names (never a keyword of the text formats)"""
+EXOTIC_POOLS = [
+    ['{a}', '{b}', '{a.b}', '(a)', '(b)', '[a]', '<a>', 'a.b'],
+    ['q-1', 'q-2', 'q+1', 'q 1', 'q#1', "q'", 'q"', 'q|r'],
+    ['', ' ', 'ε', '_', '#', '$', '∅', '0'],
+]
+
+
+def random_names(rng, n, avoid=(), exotic=False):
+    """n distinct \\w+ state names (never a keyword of the text formats); exotic=True may also give names with
+    punctuation, spaces or the empty string (only for objects that are built directly, never for text formats)"""
     avoid = tuple(avoid) + KEYWORDS
+    if exotic and rng.random() < 0.3:
+        pool = list(rng.choice(EXOTIC_POOLS))
+        rng.shuffle(pool)
+        names = [x for x in pool if x not in avoid][:n]
+        if len(names) == n:
+            return names
     mode = rng.randrange(4)
     if mode == 0:
         pool = list(rng.choice(NAME_POOLS))
@@ -239,5 +253,5 @@ def maybe_digits(rng, R, p=0.25):
     """with probability p the same automaton over digit symbols (they print like the regexp constants and
     sort / compare differently from letters)"""
     if R[1] and len(R[1]) <= 3 and rng.random() < p:
-        return with_alphabet(R, rng.choice([('0', '1', '2'), ('1', '0', '2'), ('0', '1', 'a')])[:len(R[1])])
+        return with_alphabet(R, rng.choice([('0', '1', '2'), ('1', '0', '2'), ('0', '1', 'a'), ('#', '$', '.'), ('_', '-', '+'), ('a', 'A', 'ä')])[:len(R[1])])
     return R
